@@ -20,9 +20,9 @@ if ! git -C $WT apply --3way $DST/patch.diff >>$LOG 2>&1; then echo "PATCH DOES 
 /verif/tools/baseline.sh $WT >>$LOG 2>&1; SUITE=$?
 echo "suite_with_change_rc=$SUITE" | tee -a $LOG
 cp $SRC/demo_test.go $WT/$PKG/zz_seeded_demo_test.go
-(cd $WT && go test -vet=off -count=1 ./$PKG/ -run "^($RUNRE)\$" ) >>$LOG 2>&1; WITH=$?
+(cd $WT && go test $SEED_TESTFLAGS -vet=off -count=1 ./$PKG/ -run "^($RUNRE)\$" ) >>$LOG 2>&1; WITH=$?
 git -C $WT checkout -q -- . >>$LOG 2>&1; git -C $WT reset -q >>$LOG 2>&1; git -C $WT checkout -q -- . >>$LOG 2>&1   # removes the change, keeps the untracked demo
-(cd $WT && go test -vet=off -count=1 ./$PKG/ -run "^($RUNRE)\$" ) >>$LOG 2>&1; WITHOUT=$?
+(cd $WT && go test $SEED_TESTFLAGS -vet=off -count=1 ./$PKG/ -run "^($RUNRE)\$" ) >>$LOG 2>&1; WITHOUT=$?
 echo "demo_with_change_rc=$WITH demo_without_change_rc=$WITHOUT" | tee -a $LOG
 git -C /repo worktree remove --force $WT
 if [ $SUITE -ne 0 ] || [ $WITH -eq 0 ] || [ $WITHOUT -ne 0 ]; then echo "NOT CONFIRMED" | tee -a $LOG; exit 4; fi
